@@ -23,6 +23,8 @@ jobs = []
 for name in names:
     meta = json.load(open(os.path.join('/verif/benign', name, 'meta.json')))
     for prop in meta['properties']:
+        if os.environ.get('BENIGN_PROPS') and prop not in os.environ['BENIGN_PROPS'].split(','):
+            continue
         jobs.append((name, prop))
 
 
@@ -58,6 +60,14 @@ def one(job):
 
 with ThreadPoolExecutor(JOBS) as ex:
     list(ex.map(one, jobs))
+old = {}
+if os.path.exists('/verif/benign/RESULTS.md'):
+    for line in open('/verif/benign/RESULTS.md'):
+        m = re.match(r'\| (\S+) \| (\S+) \| (.*?) \| (.*?) \|$', line.strip())
+        if m and m.group(1) != 'change' and not m.group(1).startswith('-'):
+            old[(m.group(1), m.group(2))] = m.groups()
+old.update(rows)
+rows = old
 with open('/verif/benign/RESULTS.md', 'w') as f:
     f.write('# Behaviour-preserving changes vs. quick checks (expected: quiet)\n\n| change | property | result | detail |\n|---|---|---|---|\n')
     for k in sorted(rows):
